@@ -66,7 +66,8 @@ def run(ctx, chk):
         else:
             chk.violation("C13.R1", label, "recursion-not-rejected", f"{label}: the path on which the name is already being expanded does not end in a diagnostic", where)
         # R2
-        unk = [q for q in paths if any("macro_map.get" in c[0] and "None" in c[0] for c in q.conds)]
+        from asm import key_presence
+        unk = [q for q in paths if any(key_presence(c, "macro_map") is False for c in q.conds)]
         if unk and all(any(e.kind == "error" for e in q.effects) and not any(e.kind in ("nested_parse", "push") for e in q.effects) for q in unk):
             chk.ok("C13.R2", label, "macro_map.get(name) == None -> error!")
         else:
@@ -154,8 +155,10 @@ def fmt_strings(G, nt):
         elif isinstance(n, list):
             for v in n:
                 walk(v)
+    from asm import action_and_helper_asts
     for p in G.productions(nt):
-        walk(G.main_user_action(p["action"]).get("ast"))
+        for ast in action_and_helper_asts(G, p):
+            walk(ast)
     return out
 
 
